@@ -30,7 +30,7 @@ pub fn set_arm(var: Option<&str>) {
 pub fn opts_for(args: &Args, arm: &str, do_eval: bool, do_wf: bool) -> Opts {
     let thorough = args.thorough();
     Opts {
-        cycles: args.budget("cycles", 40, 120) as usize,
+        cycles: args.budget("cycles", 40, 160) as usize,
         thorough,
         do_eval,
         do_wf,
@@ -65,7 +65,8 @@ pub fn main(args: Args) {
     run.assume("when two enabled write ports of one RAM hit the same word in one edge, later ports win (program order); such runs are counted as ram_write_collisions");
 
     let fails = crate::gateval::self_test();
-    if !fails.is_empty() {
+    // MON_SYNTH_SKIP_SELFTEST exists only to demonstrate that a wrong evaluator would be noticed by the traces too
+    if !fails.is_empty() && std::env::var_os("MON_SYNTH_SKIP_SELFTEST").is_none() {
         for f in &fails {
             run.note(format!("gateval self-test: {f}"));
         }
@@ -94,7 +95,7 @@ pub fn main(args: Args) {
         run.finish(&[]);
     }
 
-    let n = args.budget("cases", 120, 1200);
+    let n = args.budget("cases", 120, 4000);
     for (arm, var) in ARMS.iter() {
         if let Some(only) = args.get("arm")
             && only != *arm
